@@ -41,7 +41,8 @@ EXTENDS Integers, Sequences, FiniteSets, TLC, CSV
 CONSTANTS NT,        \* number of timer objects; Timers == 1..NT
           Keys,      \* set of key values (naturals) for target and deadline
           TgtLeDl,   \* TRUE: only pairs with target <= deadline (as libdispatch builds them)
-          C,         \* DISPATCH_HEAP_INIT_SEGMENT_CAPACITY (8 in the source); a power of two
+          C,         \* DISPATCH_HEAP_INIT_SEGMENT_CAPACITY (8 in the source); a power of two >= 4
+                     \* (with 2 one _grow would add a single word: TLC refutes HeapOrder at once)
           MaxSeg,    \* segments available to the memory model (enough for NT timers)
           Mut,       \* "none" or the name of a spec mutation (non-vacuity runs)
           Emit,      \* "" or a file name: every transition is appended to it (test vectors)
@@ -52,7 +53,7 @@ NULL == 0
 INVALID == -1                         \* DTH_INVALID_ID
 KeyPairs == IF TgtLeDl THEN {kp \in Keys \X Keys : kp[1] <= kp[2]} ELSE Keys \X Keys
 
-ASSUME /\ NT \in Nat /\ NT >= 1 /\ C \in {2, 4, 8, 16} /\ MaxSeg \in 1..8
+ASSUME /\ NT \in Nat /\ NT >= 1 /\ C \in {4, 8, 16} /\ MaxSeg \in 1..8
 
 Pow2(n) == IF n <= 0 THEN 1 ELSE 2 ^ n
 \* size in words of segment k
@@ -278,17 +279,21 @@ Image(hh, kk) ==
     \o [i \in 1..(2 * NT) |-> kk[(i + 1) \div 2][2 - (i % 2)]]
 
 \* positional checksum of the same image (simulation mode: long behaviours)
-RECURSIVE SumSeq(_, _)
-SumSeq(s, i) == IF i > Len(s) THEN 0 ELSE ((i * 31 + 7) * (s[i] + 2) + SumSeq(s, i + 1)) % 1000003
+RECURSIVE SumSeq(_, _, _)
+\* (balanced recursion: TLC's evaluation stack is shallow)
+SumSeq(s, lo, hi) ==
+    IF lo > hi THEN 0
+    ELSE IF lo = hi THEN ((lo * 31 + 7) * (s[lo] + 2)) % 1000003
+    ELSE LET mid == (lo + hi) \div 2 IN (SumSeq(s, lo, mid) + SumSeq(s, mid + 1, hi)) % 1000003
 Digest(hh, kk) == LET im == Image(hh, kk) IN
-    <<hh.cnt, hh.segs, IF hh.np THEN 1 ELSE 0, hh.min[1], hh.min[2], SumSeq(im, 1)>>
+    <<hh.cnt, hh.segs, IF hh.np THEN 1 ELSE 0, hh.min[1], hh.min[2], SumSeq(im, 1, Len(im))>>
 
 Init == /\ h = EmptyHeap /\ key = [t \in Timers |-> <<0, 0>>] /\ ref = {} /\ npok = TRUE
         /\ hist = <<>> /\ dir = "up"
 
 MinKeys(hh, kk) == <<hh.min, KeyOf(kk, hh.min[1], 0), KeyOf(kk, hh.min[2], 1)>>
 Out(op, t, kp, h1, key1) ==
-    IF Emit = "" THEN TRUE
+    IF Emit = "" \/ SimLen > 0 THEN TRUE       \* (simulation mode emits whole behaviours, see EmitHist)
     ELSE CSVWrite("%1$s;%2$s;%3$s", <<Image(h, key), <<op, t, kp[1], kp[2]>>, Image(h1, key1)>>, Emit)
 
 Step(op, t, kp, h1, key1, ref1) ==
